@@ -264,3 +264,12 @@ for _pid in ("C12", "C13"):
     _te = "tools/inventory_simdport.py (translator of generic.rs / soft.rs; its Rust reading table is printed in lean/CC/Gen/SimdPortSrc.lean)"
     if _te not in PROPS[_pid].get("trusted_extra", []):
         PROPS[_pid]["trusted_extra"] = list(PROPS[_pid].get("trusted_extra", [])) + [_te]
+# ---- C19: the translator tie for ppv-null (tools/inventory_null.py -> lean/CC/Gen/NullSrc.lean, obligations
+#      CC.Src.src_null_* in lean/CC/Null/Src.lean collected in `source_null_match`)
+if "source_null_match" not in PROPS["C19"]["theorems"]:
+    PROPS["C19"]["theorems"] = list(PROPS["C19"]["theorems"]) + ["source_null_match"]
+    PROPS["C19"]["trusted_extra"] = list(PROPS["C19"].get("trusted_extra", [])) + [
+        "tools/inventory_null.py (translator for utils-simd/ppv-null/src/lib.rs): macro expansion per invocation, the reading "
+        "table Rust form -> Lean term printed in the header of lean/CC/Gen/NullSrc.lean (debug_assert* = guard in profile "
+        "debug only, slice/array index = guard in every profile, << >> - overflow-checked in debug / masked or wrapping in "
+        "release, closures and function paths passed to map/zipmap inlined), the vocabulary CC.Null.Vocab"]
